@@ -99,7 +99,36 @@ def concretise(abstract, rng, *, variant: int):
     an = ASKER_NAMES[variant % len(ASKER_NAMES)]
     world['askers'] = dict(me=world['me'], u1=an['u1'], u2=an['u2'])
     world['share'] = SHARE
+    world['alias'] = pick_alias(abstract, rng)
     return out, world
+
+
+def pick_alias(abstract, rng, rate=0.5):
+    """Now and then two model peers are the same user: b connects to us (a second link, e.g. a reconnect
+    while the old link is still half open) like any other peer.  b must be a peer that only ever connects
+    in and closes in this schedule (it is never proposed, never announces, never sends a request)."""
+    if rng.random() >= rate:
+        return {}
+    kinds: dict = {}
+    for st in abstract:
+        if st[0] == 'pp':
+            for p in st[1]:
+                kinds.setdefault(p, set()).add('pp')
+        elif st[0] == 'search':
+            kinds.setdefault(st[2], set()).add('search')
+        elif len(st) > 1 and isinstance(st[1], str):
+            kinds.setdefault(st[1], set()).add(st[0])
+    plain = {'incoming', 'close', 'wcdone', 'drained'}
+    bs = sorted(p for p, ks in kinds.items() if p.startswith('p') and ks <= plain and 'incoming' in ks)
+    if not bs:
+        return {}
+    b = rng.choice(bs)
+    # a: a user that only ever connects in as well (a proposed potential parent of the same name would
+    # make the second link a candidate instead of a child - another history than the one meant here)
+    others = sorted(p for p, ks in kinds.items() if p.startswith('p') and p != b and ks <= plain and 'incoming' in ks)
+    if not others:
+        return {}
+    return {b: rng.choice(others)}
 
 
 def _fp(tid, info, trace):
@@ -244,6 +273,7 @@ def run(chk: Check, args):
                 delivered += ns
                 traces.append(ev)
                 metas.append(dict(abstract=ab, stimuli=conc, hold=hold, variant=variant, source=source,
+                                  alias=world.get('alias') or {},
                                   truncated=info.get('truncated')))
                 chk.count((ab, variant, hold, tuple(s for s in conc if s[0] == 'search')), nontrivial=ns > 0)
     finally:
@@ -299,6 +329,7 @@ def replay(chk: Check, d: dict):
     if not meta.get('stimuli'):
         raise MachineryFailure('the replay file holds no stimuli')
     _, world = concretise([], chk.rng, variant=int(meta.get('variant', 0)))
+    world['alias'] = dict(meta.get('alias') or {})
     tmp = tempfile.mkdtemp(prefix='c14-')
     try:
         ev, info = run_schedule([tuple(s) for s in meta['stimuli']], hold=bool(meta.get('hold', True)), tmpdir=tmp, **world)
